@@ -451,24 +451,42 @@ char *FUNC(generate)(jwt_common_t *__cmd)
 
 	jwt->headers = json_deep_copy(__cmd->c.headers);
 	jwt->claims = json_deep_copy(__cmd->c.payload);
+	if (jwt->headers == NULL || jwt->claims == NULL) {
+		// LCOV_EXCL_START
+		jwt_write_error(__cmd, "Error allocating memory");
+		return NULL;
+		// LCOV_EXCL_STOP
+	}
 
-	/* Our internal work first */
+	/* Our internal work first. A token missing one of these claims is
+	 * not the token that was asked for. */
+	jval.error = JWT_VALUE_ERR_NONE;
+
 	if (__cmd->c.claims & JWT_CLAIM_IAT) {
 		jwt_set_SET_INT(&jval, "iat", (long)tm);
 		jval.replace = 1;
 		jwt_claim_set(jwt, &jval);
 	}
 
-	if (__cmd->c.claims & JWT_CLAIM_NBF) {
+	if (jval.error == JWT_VALUE_ERR_NONE &&
+	    (__cmd->c.claims & JWT_CLAIM_NBF)) {
 		jwt_set_SET_INT(&jval, "nbf", (long)(tm + __cmd->c.nbf));
 		jval.replace = 1;
 		jwt_claim_set(jwt, &jval);
 	}
 
-	if (__cmd->c.claims & JWT_CLAIM_EXP) {
+	if (jval.error == JWT_VALUE_ERR_NONE &&
+	    (__cmd->c.claims & JWT_CLAIM_EXP)) {
 		jwt_set_SET_INT(&jval, "exp", (long)(tm + __cmd->c.exp));
 		jval.replace = 1;
 		jwt_claim_set(jwt, &jval);
+	}
+
+	if (jval.error != JWT_VALUE_ERR_NONE) {
+		// LCOV_EXCL_START
+		jwt_write_error(__cmd, "Error setting iat, nbf or exp claim");
+		return NULL;
+		// LCOV_EXCL_STOP
 	}
 
 	/* Alg and key checks */
